@@ -20,6 +20,7 @@ STR_MODE = ["string"]  # or "intseq"; set per function by the contract (strmode=
 
 Ref = z3.DeclareSort("Ref")
 typeof = z3.Function("typeof", Ref, z3.IntSort())
+born = z3.Function("born", Ref, z3.IntSort())   # allocation stamp: <= 0 for objects existing at function entry
 
 _cache = {}
 
